@@ -316,4 +316,60 @@ let mk_sys toks =
     end else failwith "unknown kind"
   | _ -> failwith "unknown case header"
 
-let () = run mk_sys (fun toks -> match toks with k :: c :: p :: _ -> String.concat " " [k; c; p] | _ -> String.concat " " toks)
+(* ---- search of the release/acquire view model of UniqueIndexSet (model/UniqueIndexSetRA.v) for
+        an execution in which a USED next-cell value was read racily, under a given table of six
+        memory orderings (used when the orderings observed in the implementation differ from the
+        table the theorem c09_uisra_exclusive_and_used_race_free is stated for) ---- *)
+let ord_of_string = function
+  | "rlx" -> Relaxed | "rel" -> Release | "acq" -> Acquire | "acqrel" -> AcqRel | "sc" -> SeqCst
+  | s -> failwith ("ordering " ^ s)
+
+let uisra_search (o : vords) =
+  let found = ref None in
+  let seen = Hashtbl.create 100000 in
+  let templates = [
+    ("acq,rel|acq", [| [UAcq; URel (MDefault, true)]; [UAcq] |]);
+    ("acq|acq,rel", [| [UAcq]; [UAcq; URel (MDefault, true)] |]);
+    ("acq,rel,acq|acq,rel", [| [UAcq; URel (MDefault, true); UAcq]; [UAcq; URel (MDefault, true)] |]);
+    ("acq,rel|acq,rel|acq", [| [UAcq; URel (MDefault, true)]; [UAcq; URel (MDefault, true)]; [UAcq] |]) ] in
+  List.iter (fun cap ->
+    List.iter (fun (name, progs) ->
+      if !found = None then begin
+        Hashtbl.reset seen;
+        let nt = Array.length progs in
+        let rec go c sched =
+          if !found <> None then () else begin
+            let (g, ls) = c in
+            let key = Marshal.to_string (uisra_set_oracle g [], Array.init nt (fun i -> ls (nat_of_int i))) [] in
+            if not (Hashtbl.mem seen key) then begin
+              Hashtbl.add seen key ();
+              for t = 0 to nt - 1 do
+                List.iter (fun k ->
+                  if !found = None then begin
+                    let c0 = (uisra_set_oracle g [n_of_int k], ls) in
+                    match uisra_step1 o (nat_of_int t) c0 with
+                    | None -> ()
+                    | Some (c', _) ->
+                      let consumed = (uisra_oracle (fst c') = []) in
+                      if k = 0 || consumed then begin
+                        let sched' = (t, if consumed then k else 0) :: sched in
+                        if uisra_race_used (fst c') then found := Some (name, cap, List.rev sched')
+                        else go c' sched'
+                      end
+                  end) [0; 1000]
+              done
+            end
+          end in
+        go (uisra_init (n_of_int cap) (n_of_int 32) [] (fun t -> let i = int_of_nat t in if i < nt then progs.(i) else [])) []
+      end) templates) [1; 2];
+  match !found with
+  | Some (name, cap, sched) ->
+    Printf.printf "UISRAWITNESS used-race cap=%d program=%s schedule=%s\n" cap name
+      (String.concat "," (List.map (fun (t, k) -> Printf.sprintf "%d:%d" t k) sched))
+  | None -> print_string "UISRACLEAN\n"
+
+let () =
+  if Array.length Sys.argv > 1 && Sys.argv.(1) = "uisra" then
+    uisra_search (uisra_mk_ords (ord_of_string Sys.argv.(2)) (ord_of_string Sys.argv.(3)) (ord_of_string Sys.argv.(4))
+                    (ord_of_string Sys.argv.(5)) (ord_of_string Sys.argv.(6)) (ord_of_string Sys.argv.(7)))
+  else run mk_sys (fun toks -> match toks with k :: c :: p :: _ -> String.concat " " [k; c; p] | _ -> String.concat " " toks)
